@@ -106,9 +106,9 @@ def cases(draw, prof):
         if klass == "perturb-big":
             new = cur * draw(st.sampled_from([0.5, 1.5, 1.01])) + draw(st.sampled_from([0.0, 1e-3, 5.0]))
         elif klass == "perturb-edge":
-            new = cur + draw(st.sampled_from([1e-7, 5e-7, 0.9e-6, 1.1e-6, 2e-6, 1e-5, -5e-7, -2e-6]))
+            new = cur + draw(st.sampled_from([1e-7, 5e-7, 0.9e-6, 1.1e-6, 2e-6, 1e-5, 2e-5, 3e-5, -5e-7, -2e-6, -2e-5]))
         elif klass == "negative":
-            new = cur * draw(st.sampled_from([0.0, 0.1, 3.0])) - draw(st.sampled_from([0.0, 1.0]))
+            new = cur * draw(st.sampled_from([0.0, 0.1, 1.0, 1.0, 3.0])) - draw(st.sampled_from([0.0, 1e-5, 1e-3, 0.5, 1.0, 10.0])) * draw(st.sampled_from([1.0, -1.0]))
             new = max(new, 0.0) if draw(st.booleans()) else new
         elif klass == "yfactor":
             f = draw(st.sampled_from([0.5, 2.0, 1.25]))
